@@ -394,6 +394,9 @@ func cmdCheck(args []string) int {
 	if s := os.Getenv("RUXSYM_SOLVER"); s != "" {
 		opts.Solver = s
 	}
+	if n, err := strconv.Atoi(os.Getenv("RUXSYM_WORKERS")); err == nil && n > 0 {
+		opts.Workers = n
+	}
 	// thorough tier: every 25th obligation is re-answered by a second solver
 	if tier == "thorough" {
 		opts.Mirror, opts.MirrorEvery = "cvc5", 25
